@@ -15,4 +15,8 @@ if ! /venv/bin/python -c "import hypothesis" 2>/dev/null; then
       echo "setup: hypothesis install failed" >&2; exit 2; }
   fi
 fi
+# optional engine: atheris (coverage-guided campaigns in the thorough tier); its absence is tolerated
+if [ ! -d .deps/atheris ]; then
+  /venv/bin/pip install -q --no-index --find-links "$WH" --target .deps atheris >/dev/null 2>&1 || true
+fi
 exit 0
